@@ -26,6 +26,9 @@ pub struct C03 {
 	done: BTreeSet<String>,
 	repeat_of_ok: bool,
 	pub avoid_known: bool,
+	/// steps queued behind an inserted one (LIFO)
+	queue: Vec<Step>,
+	p_bad_reply: u64,
 }
 
 impl C03 {
@@ -37,6 +40,8 @@ impl C03 {
 		cfg.w_cancel = run.rng.below(5) as u32;
 		cfg.boundary_args = false;
 		cfg.allow_cancel_after_post = false;
+		cfg.allow_late_lock = true;
+		cfg.p_late_lock = *run.rng.pick(&[20u64, 40]);
 		let gen = HistGen::new(cfg, run);
 		C03 {
 			gen,
@@ -44,6 +49,8 @@ impl C03 {
 			done: BTreeSet::new(),
 			repeat_of_ok: false,
 			avoid_known: false,
+			queue: vec![],
+			p_bad_reply: *run.rng.pick(&[0u64, 15, 30]),
 		}
 	}
 
@@ -102,7 +109,33 @@ impl Prop for C03 {
 	}
 
 	fn next(&mut self, run: &mut Run) -> Option<Step> {
-		self.gen.next(run)
+		if let Some(s) = self.queue.pop() {
+			return Some(s);
+		}
+		let st = self.gen.next(run)?;
+		// a finalize is sometimes preceded by the same step with a damaged copy of the
+		// reply (refused), so the genuine one is a *repeated* finalize of that slate
+		if let Op::Finalize { w, m, foreign } = &st.op {
+			// (the late-locked send selects and reserves inside finalize: more often there)
+			let late = run.model.deal_of_msg(run, *m).map(|d| run.model.deals[d].late_lock).unwrap_or(false);
+			let p = if late { std::cmp::max(self.p_bad_reply, 50) } else { self.p_bad_reply };
+			if p > 0
+				&& run.rng.chance(p, 100)
+				&& *m < run.ex.msgs.len()
+				&& run.ex.msgs[*m].mutated.is_none()
+			{
+				let bad = run.ex.msgs.len();
+				self.queue.push(st.clone());
+				self.queue.push(Step::new(Op::Finalize { w: *w, m: bad, foreign: *foreign }));
+				run.cov.probe("finalize_repeated_after_refused_damaged_reply");
+				return Some(Step::new(Op::Mutate {
+					m: *m,
+					kind: (*run.rng.pick(&["part_sig_flip", "part_sig_other", "offset_rand", "part_nonce_rand"])).to_owned(),
+					arg: run.rng.next_u64() >> 8,
+				}));
+			}
+		}
+		Some(st)
 	}
 
 	fn before(&mut self, run: &mut Run, step: &Step) {
@@ -137,6 +170,11 @@ impl Prop for C03 {
 	fn after(&mut self, run: &mut Run, step: &Step, out: &StepOut) -> Vec<Violation> {
 		let mut v = vec![];
 		self.gen.feedback(run, step, out);
+		if let Op::Mutate { .. } = &step.op {
+			if out.new_msg.is_none() && self.queue.len() >= 2 {
+				self.queue.pop();
+			}
+		}
 		let key = Self::step_key(run, step);
 		let inflight: Vec<usize> = run
 			.model
